@@ -115,6 +115,8 @@ def _exit_by_view(env, m, eb, adt, w, r, resv, evs):
             a_, b_ = x[2], unref(x[3])
         elif x[0] == "call" and x[1] == "saturating_sub" and len(x[2]) == 2:
             a_, b_ = x[2][0], unref(x[2][1])
+        if a_ is not None and m.canon(a_) == Lc and m.canon(b_) in offs:
+            return True   # LEN - begin itself
         return a_ is not None and m.canon(a_) == Lc and b_[0] == "atomic" and b_[1] == "load" \
             and R.classify(b_[2]) == ("pos", adt) and before(b_, rterm)
     offs = (m.canon(off), m.canon(offp))
